@@ -670,7 +670,8 @@ static void make_var (
 	}
 	strcpy (new_var, prefix);
 	p = new_var + plen;
-	strncpy (p, name, nlen + 1);
+	strncpy (p, name, nlen);
+	p[nlen] = '\0';
 }
 
 int ILLsymboltab_uname (
